@@ -455,6 +455,10 @@ class StrVec(Sym):
     def isdigit(self):
         raise Unmodelled("isdigit")
 
+    def isascii(self):
+        n = self.nterm()
+        return mkbool(z3.And(*[z3.Implies(n > i, c < 128) for i, c in enumerate(self.chars)]))
+
     def isspace(self):
         n = self.nterm()
         return mkbool(z3.And(n > 0, *[z3.Implies(n > i, CC.in_ranges(c, CC.SPACE)) for i, c in enumerate(self.chars)]))
